@@ -38,7 +38,8 @@ BUDGET = {'quick': 300, 'thorough': 900}
 
 OPS = {0: 'accept', 1: 'close', 2: 'send_text', 3: 'receive_text', 4: 'raise HTTPNotFound', 5: 'raise ValueError', 6: 'close(code)',
        7: "accept(subprotocol)", 8: 'send_data', 9: 'receive_data', 10: 'send_media', 11: 'receive_media', 12: 'yield',
-       13: 'raise HTTPStatus', 14: 'return'}
+       13: 'raise HTTPStatus', 14: 'return', 15: 'send_text (errors propagate)', 16: 'receive_text (errors propagate)'}
+LAST = {}      # the loop of the last session and the tasks it left unfinished (read by C18's app-level check)
 SCRIPT = {'ops': (), 'code': 1000}
 LOG = []
 PULLED = [0]   # client messages falcon has pulled from the server so far (updated by the harness)
@@ -74,11 +75,19 @@ class _Res:
                     LOG.append(('got', 'media', await ws.receive_media()))
                 elif op == 12:
                     await asyncio.sleep(0)
+                elif op == 15:
+                    await ws.send_text('hi')
+                elif op == 16:
+                    LOG.append(('got', 'text', await ws.receive_text()))
                 elif op == 13:
                     raise falcon.HTTPStatus(falcon.HTTP_202)
                 elif op == 14:
                     return
                 LOG.append(('ok', i))
+            except errors.WebSocketDisconnected as e:
+                if op in (15, 16):
+                    raise     # falcon's default handler for an unhandled WebSocketDisconnected takes over
+                LOG.append(('raised', i, type(e).__name__, PULLED[0]))
             except (errors.OperationNotAllowed, errors.WebSocketDisconnected, errors.PayloadTypeError) as e:
                 LOG.append(('raised', i, type(e).__name__, PULLED[0]))
             except ValueError as e:
@@ -111,7 +120,7 @@ VERSIONS = ['2.0', '2.1', '2.3', '2.4']
 CLIENT = [[], [('text', 'a')], [('bytes', b'\x02')], [('text', 'a'), ('text', 'b')], [('text', '{"j": 1}')], [('text', 'a'), ('bytes', b'\x03')]]
 
 
-def session(ops, code, queue, ver_idx, ci, fail_send, path_i, choices):
+def session(ops, code, queue, ver_idx, ci, fail_send, path_i, choices, burst=0):
     """-> (events sent incl. '#lost' marker, LOG copy, exception escaping the app or None)"""
     SCRIPT['ops'] = tuple(ops)
     SCRIPT['code'] = code
@@ -125,9 +134,18 @@ def session(ops, code, queue, ver_idx, ci, fail_send, path_i, choices):
         inbox.append({'type': 'websocket.receive', kind: payload})
     inbox.append({'type': 'websocket.disconnect', 'code': 1001})
     pending = []
+    arrived = collections.deque()     # events that reached the server while nobody was receiving (burst > 0 only)
     st = {'sends': 0, 'ci': 0, 'lost_handle': None}
 
     async def receive():
+        if arrived:
+            # a server with its own inbound queue (e.g. asyncio.Queue.get()) hands a waiting event over without yielding
+            ev = arrived.popleft()
+            if ev['type'] == 'websocket.receive':
+                PULLED[0] += 1
+            if ev['type'] == 'websocket.disconnect':
+                sent.append({'type': '#lost'})
+            return ev
         f = loop.create_future()
         pending.append(f)
         return await f
@@ -175,6 +193,10 @@ def session(ops, code, queue, ver_idx, ci, fail_send, path_i, choices):
                             st['lost_handle'] = loop._ready[-1]
                         else:
                             sent.append({'type': '#lost'})
+                    # the next `burst` client events arrive back-to-back with this one
+                    for _ in range(burst):
+                        if inbox and ev['type'] != 'websocket.connect':
+                            arrived.append(inbox.popleft())
             else:
                 h = loop.run_one()
                 if h is st['lost_handle']:
@@ -185,6 +207,8 @@ def session(ops, code, queue, ver_idx, ci, fail_send, path_i, choices):
                         sent.append({'type': '#lost'})
                     else:
                         sent.append({'type': '#unseen-disconnect'})
+        LAST['drained'] = loop.drain()
+        LAST['leftover'] = [getattr(x.get_coro(), '__qualname__', repr(x)) for x in loop.leftover_tasks()]
         try:
             t.result()
         except OSError as e:
@@ -233,10 +257,10 @@ def monitor(sent, ver):
     return None
 
 
-def session_case(ops, code, queue, ver_idx, ci, fail_send, path_i, choices):
-    sent, log, escaped = session(ops, code, queue, ver_idx, ci, fail_send, path_i, choices)
+def session_case(ops, code, queue, ver_idx, ci, fail_send, path_i, choices, burst=0):
+    sent, log, escaped = session(ops, code, queue, ver_idx, ci, fail_send, path_i, choices, burst)
     ctx = lambda: 'script=%r close_code=%r queue=%r spec=%s client=%r fail_send=%r path#%d schedule=%r -> events %r log %r escaped %r' % (  # noqa: E731
-        [OPS[o] for o in ops], code, queue, VERSIONS[ver_idx], CLIENT[ci], fail_send, path_i, choices,
+        [OPS[o] for o in ops], code, queue, VERSIONS[ver_idx], CLIENT[ci], fail_send, path_i, (choices, 'burst', burst),
         [(e['type'], e.get('code')) for e in sent], log, escaped)
     if escaped in ('livelock', 'blocked'):
         return fail(lambda: escaped + ': ' + ctx())
